@@ -227,6 +227,73 @@ fn scalar_arrays(ctx: &Ctx, pool: &[V], pname: &str, maxlen: u32) {
     ctx.report.family(FamilyStat { name, cases: total, nontrivial: total, skipped: 0, note: "offset in [-6,6], length absent or 1..7".into() });
 }
 
+
+/// Arrays whose elements are of *different kinds yet equal* in the value model (1 and 1.0; true and
+/// any truthy scalar; false and nil): uniq must drop by the model's equality, not by a finer key
+/// (type + text) or a coarser one; compact removes exactly nils; reverse/concat/size keep every
+/// element.  Expected arrays are passed as data and dumped by the engine itself, so no printed
+/// form is modelled.
+fn mixed_equal_arrays(ctx: &Ctx, maxlen: u32) {
+    let pool = [V::Int(1), V::Float(1.0), V::Int(2), V::Float(2.0), V::Float(2.5), V::s("1"), V::Bool(true), V::Bool(false), V::Nil];
+    let n = pool.len() as u64;
+    let total = seq_count(n, maxlen);
+    let name = format!("arrays over {{1,1.0,2,2.0,2.5,\"1\",true,false,nil}}/len<={maxlen}");
+    let tmpl = "{{ a | uniq | dump }}#{{ eu | dump }}#{{ a | compact | dump }}#{{ ec | dump }}#{{ a | reverse | dump }}#{{ er | dump }}#{{ a | concat: a | size }}#{{ a | sort | size }}#{{ a | uniq | uniq | dump }}";
+    par_range(
+        ctx.report,
+        &name,
+        total,
+        |i| {
+            let a: Vec<V> = seq_decode(i, n, maxlen).iter().map(|k| pool[*k as usize].clone()).collect();
+            let mut er = a.clone();
+            er.reverse();
+            let data = V::obj(&[
+                ("a", V::Arr(a.clone())),
+                ("eu", V::Arr(uniq_ref(&a))),
+                ("ec", V::Arr(a.iter().filter(|v| **v != V::Nil).cloned().collect())),
+                ("er", V::Arr(er)),
+            ]);
+            ctx.report.eval();
+            let (actual, _) = cfgs::run_case(&ctx.parser, tmpl, &data.to_object());
+            let w = || json!({"kind":"render","template":tmpl,"data":data.to_json(),"partials":[]});
+            let Outcome::Ok(out) = &actual else {
+                ctx.report.violation(&format!("C14|mixed|{}", if matches!(actual, Outcome::Panic(_)) { "panic" } else { "failed" }), i, w(), format!("{} on {}: {}", tmpl, data.to_json(), actual.short()));
+                return;
+            };
+            let p: Vec<&str> = out.split('#').collect();
+            if p.len() != 9 {
+                ctx.report.violation("C14|mixed|malformed-output", i, w(), out.clone());
+                return;
+            }
+            ctx.nontriv.fetch_add(6, Ordering::Relaxed);
+            let arr = darr(&a);
+            if p[0] != p[1] {
+                ctx.report.violation("C14|uniq|drops-exactly-the-elements-equal-to-an-earlier-one|mixed-kinds", i, w(), format!("uniq of {arr}: expected {} got {}", p[1], p[0]));
+            }
+            if p[8] != p[0] {
+                ctx.report.violation("C14|uniq|idempotent|mixed-kinds", i, w(), format!("uniq | uniq of {arr}: {} vs {}", p[8], p[0]));
+            }
+            if p[2] != p[3] {
+                ctx.report.violation("C14|compact|removes-exactly-nils|mixed-kinds", i, w(), format!("compact of {arr}: expected {} got {}", p[3], p[2]));
+            }
+            if p[4] != p[5] {
+                ctx.report.violation("C14|reverse|value|mixed-kinds", i, w(), format!("reverse of {arr}: expected {} got {}", p[5], p[4]));
+            }
+            if p[6] != (2 * a.len()).to_string() {
+                ctx.report.violation("C14|concat|length-is-sum|mixed-kinds", i, w(), format!("concat size {} for |a| = {}", p[6], a.len()));
+            }
+            if p[7] != a.len().to_string() {
+                ctx.report.violation("C14|sort|permutation|mixed-kinds", i, w(), format!("sort size {} for |a| = {}", p[7], a.len()));
+            }
+            if i % 101 == 0 {
+                ctx.report.outcome(&p[0].to_string());
+            }
+        },
+        |i| json!({"a": seq_decode(i, n, maxlen)}),
+    );
+    ctx.report.family(FamilyStat { name, cases: total, nontrivial: total * 6, skipped: 0, note: "uniq (model equality, idempotent), compact, reverse, concat size, sort size on arrays mixing kinds that compare equal".into() });
+}
+
 fn object_arrays(ctx: &Ctx, maxlen: u32) {
     let pool = [
         V::obj(&[("p", V::Int(1))]),
@@ -364,6 +431,7 @@ pub fn run(tier: Tier) -> i32 {
     let t = tier.thorough();
     scalar_arrays(&ctx, &[V::Int(1), V::Int(2), V::Int(3), V::Nil], "{1,2,3,nil}", if t { 6 } else { 5 });
     scalar_arrays(&ctx, &[V::s("a"), V::s("A"), V::s("b"), V::s("B"), V::Nil], "{a,A,b,B,nil}", 5);
+    mixed_equal_arrays(&ctx, if t { 5 } else { 4 });
     object_arrays(&ctx, if t { 5 } else { 4 });
     if t {
         long_arrays(&ctx, &[21, 24, 32, 33, 40, 48, 64]);
